@@ -814,9 +814,11 @@ func (t *ZeroAllocTokenizer) processBlockTag(content string) {
 func (t *ZeroAllocTokenizer) tokenizeTemplatePath(path string) {
 	path = strings.TrimSpace(path)
 
-	// If it's a quoted string
-	if (strings.HasPrefix(path, "\"") && strings.HasSuffix(path, "\"")) ||
-		(strings.HasPrefix(path, "'") && strings.HasSuffix(path, "'")) {
+	// If it's a single quoted string: it starts and ends with the same quote
+	// and that quote does not occur in between (otherwise it is an expression
+	// such as 'a' ~ 'b', or one lone quote character)
+	if len(path) >= 2 && (path[0] == '"' || path[0] == '\'') && path[len(path)-1] == path[0] &&
+		strings.IndexByte(path[1:len(path)-1], path[0]) == -1 {
 		// Extract content without quotes
 		content := path[1 : len(path)-1]
 		t.AddToken(TOKEN_STRING, content, t.line)
